@@ -664,3 +664,20 @@ func c02Configs(tier string) []C18Cfg {
 }
 
 func checkC02() int { return checkSimple("C02", "C02conc", "C02-conc.part") }
+
+// c10PromConfigs: promotion of a rebuilt replica against concurrent writes (part C10prom of C10): after every
+// interleaving all RW replicas report the same revision counter, as after some sequential order (the outcome contains
+// every node's counter).
+func c10PromConfigs(tier string) []C18Cfg {
+	var out []C18Cfg
+	add := func(init string, ops ...string) { out = append(out, C18Cfg{Name: "promotion", Init: init, Ops: ops}) }
+	for _, p := range [][]string{{"W0", "Ver2"}, {"W1", "Ver2"}, {"WF1", "Ver2"}, {"W0", "W1", "Ver2"}, {"Ver2", "Snap"}, {"Ver2", "Mon0"}} {
+		add("rw2wo", p...)
+	}
+	if tier == "thorough" {
+		add("rw2wo", "W0", "WF1", "Ver2")
+	}
+	return out
+}
+
+func checkC10prom() int { return checkSimple("C10", "C10prom", "C10-prom.part") }
